@@ -103,7 +103,11 @@ theorem mode_switch (ns : Namespace) (x : Bytes) :
 theorem mode_removeLast (ns : Namespace) (h : WF ns) : ns.removeLast.usesMap = ns.usesMap :=
   (removeLast_spec ns h).2.2
 
-/-- Any history of inserts and removeLast, across the mode switch, is indistinguishable from the mode-free
+/-- `reset` (reuse of the slot for a sibling object or the next top-level value) forgets everything, the map too. -/
+theorem reset_empty (ns : Namespace) : ns.reset = Namespace.empty ∧ ns.reset.usesMap = false ∧ ns.reset.names = [] :=
+  ⟨rfl, rfl, rfl⟩
+
+/-- Any history of inserts, removeLast and reset, across the mode switch, is indistinguishable from the mode-free
 reference (a plain list with "append unless present"): same results, same names. -/
 theorem history_mode_free (ops : List Namespace.Op) :
     ((Namespace.run Namespace.empty ops).1.names, (Namespace.run Namespace.empty ops).2) = specRun [] ops :=
